@@ -1882,10 +1882,11 @@ class RedunBackendDb(RedunBackend):
                 for eval_arg in chain(eval_args[0], eval_args[1].values()):
                     self.record_value(eval_arg)
 
-                # If child nodes were not recorded, then their tasks might not be recorded either.
-                if recorded_child_hashes < set(child_call_hashes):
-                    for task in subtree_tasks:
-                        self.record_value(task)
+                # The tasks of the subtree might not be recorded yet, e.g. if child nodes were
+                # not recorded (prov=False), or if a child node was imported from another
+                # repository without its subtree.
+                for task in subtree_tasks:
+                    self.record_value(task)
 
                 session.add(
                     CallNode(
